@@ -66,10 +66,13 @@ pub fn gen_content(rng: &mut Rng, kind: CompKind) -> Content {
     // a sub-range anywhere inside the component range
     let sub = |rng: &mut Rng| -> (f64, f64) {
         match kind {
-            CompKind::F32 => match rng.below(4) {
-                0 => (0.0, 1.0),
-                1 => (-1000.0, 1000.0),
-                2 => (0.0, 1e-3),
+            CompKind::F32 => match rng.below(12) {
+                0..=2 => (0.0, 1.0),
+                3..=5 => (-1000.0, 1000.0),
+                6 | 7 => (0.0, 1e-3),
+                // denormal inputs and results (f32 spacing 2^-149), and values near the top of the f32 range
+                8 => (0.0, 1e-40),
+                9 => (-3.0e37, 3.0e37),
                 _ => (-1.0, 1.0),
             },
             _ => {
